@@ -147,6 +147,14 @@ NOTES = {
     "C10-d": ("insert_rr tests the 8192 limit against the length on entry (possibly compressed) instead of the pointer-free length", "caught at once (compressed packets whose pointer-free form straddles the limit, added for C10-a)"),
     "C11-d": ("the 65535 limit of resize_rr also applied when a record shrinks or is removed", "caught at once (jumbo histories)"),
     "C13-d": ("RR::new refuses data of exactly 65535 bytes (>= instead of >)", "MISSED at first; only a DS record can get there: digests of 65527 .. 65533 bytes (131 KB of text) added - now caught"),
+    "C01-d": ("edns_increment_offset bounded by the end of the packet instead of the end of the OPT data (OPT not last, option overrunning into the next record)", "caught at once"),
+    "C02-d": ("after a pointer, the labels read at the target only have to stop before the pointer that was followed, not before the segment that held it", "not run before the strengthening: the family of misaligned reads (pointer-like byte pairs inside label contents, pointers to arbitrary earlier offsets) was written after reading the description of this change - caught with it; 587 of 3000 such packets are rejected for exactly the loosened rule"),
+    "C04-d": ("resize_rr no longer drops the cached question and the getters test the question offset first: delete + re-insert of the question on a decompressed object reports the old question", "MISSED at first; C04's histories now also delete the question and insert another one between reads of the cache - now caught"),
+    "C12-d": ("set_rcode / set_opcode go through a helper that asks for 13 header bytes: no effect on a synthesised empty packet of exactly 12 bytes", "MISSED at first; the setters are now also run on ParsedPacket::empty() before any insertion - now caught"),
+    "C14-d": ("253-byte limit measured on the whole output buffer (with a truncate on error): SOA contact / MX host rejected", "caught at once (op ZP added for C14-c)"),
+    "C16-d": ("error slot table of 65536 entries indexed by a wrapping counter", "first run: reported through the regenerated thread_local obligation only (no failing input); new op HS (one live thread, n short-lived failing threads one after the other) with n = 300 / 4097 in the quick tier and 65535 / 65536 / 65537 / 131073 in the thorough tier; the search that a broken obligation triggers runs the thorough family, so the quick check now reports it with the 65536-thread input (72 s)"),
+    "C17-d": ("compress() reuses a per-thread dictionary whose clear() forgets the entries beyond the write cursor after it wrapped", "caught at once (operation pairs after 32+-suffix packets, added for C17-a/c; also the thread_local inventory)"),
+    "C18-d": ("pointer-to-pointer fast path decrements the hop budget without testing it: mixed label/pointer chains wrap the counter (release) or panic (debug)", "first run: only the regenerated inventory and the step-count correspondence broke (no failing input); added chains of mixed shape (0..4 pointer-to-label hops before / after a run of 8..19, 40, 400, 4000 back-to-back pointers) - now caught with an input"),
     "C17-c": ("compress() output built in a thread-local scratch buffer that is not cleared above 64 KiB of capacity", "first run: only the regenerated inventory obligation broke; added small operations right after 33 .. 65 KB ones - now caught with an input"),
 }
 
